@@ -6,25 +6,28 @@ import (
 	"strconv"
 
 	"github.com/gkampitakis/go-snaps/internal/vxrt"
+	"github.com/gkampitakis/go-snaps/match"
 )
 
 // H_C03_addressing: the k-th call of an execution of test N addresses slot
-// (N, k), whatever ran before; a failing call still consumes its ordinal;
-// a new execution starts at 1 again.
+// (N, k), whatever ran before or runs in between (other tests with
+// prefix-related names starting, calling and finishing); a failing call -
+// mismatch, invalid JSON, matcher error - still consumes its ordinal; a new
+// execution starts at 1 again.
 func H_C03_addressing() {
 	vxrt.CI(false)
+	vxrt.EnvFixed("NO_COLOR", "1")
 	dir := vxrt.Dir()
-	c := WithConfig(Dir(dir), Filename("f"), Update(false))
+	c := WithConfig(Dir(dir), Filename("f"))
 	path := dir + "/f.snap"
 
-	// two test names drawn from a pool with prefix relations
 	pool := []string{"TestA", "TestA/b", "TestAB", "TestA/b/c"}
-	nameX := pool[vxrt.Choice("nameX", len(pool))]
-	nameY := pool[vxrt.Choice("nameY", len(pool))]
+	names := [2]string{pool[vxrt.Choice("nameX", len(pool))], pool[vxrt.Choice("nameY", len(pool))]}
+	vxrt.Assume(names[0] != names[1])
 
-	// history: some executions of X and Y before, with arbitrary numbers of calls (incl. > 9)
-	for _, nm := range []string{nameX, nameY} {
-		pre := vxrt.Len("pre-calls", 0, vxrt.Param("pre", 2))
+	// history: earlier executions with arbitrary numbers of calls (incl. > 9)
+	for _, nm := range names {
+		pre := []int{0, vxrt.Param("pre", 2)}[vxrt.Choice("pre-calls", 2)]
 		t0 := newT(nm)
 		for k := 0; k < pre; k++ {
 			c.MatchSnapshot(t0, "v")
@@ -32,54 +35,44 @@ func H_C03_addressing() {
 		t0.end()
 	}
 
-	// the execution under observation: calls of X interleaved with calls of Y
-	calls := vxrt.Len("calls", 1, vxrt.Param("calls", 3))
-	tx, ty := newT(nameX), newT(nameY)
-	kx, ky := 0, 0
-	for k := 0; k < calls; k++ {
-		who := vxrt.Choice("who", 2)
-		t := tx
-		if who == 1 {
-			t = ty
+	ts := [2]*mockT{newT(names[0]), newT(names[1])}
+	ord := [2]int{0, 0}
+	steps := vxrt.Len("steps", 1, vxrt.Param("steps", 3))
+	for s := 0; s < steps; s++ {
+		w := vxrt.Choice("who", 2)
+		o := 1 - w
+		switch vxrt.Choice("action", 5) {
+		case 0: // a passing or creating call
+			ts[w].errors = nil
+			c.MatchSnapshot(ts[w], "v")
+			ord[w]++
+			if len(ts[w].errors) == 0 {
+				_, _, err := getPrevSnapshot("["+names[w]+" - "+strconv.Itoa(ord[w])+"]", path)
+				vxrt.Assert(err == nil, "C03:kth-call-addresses-slot-k")
+			}
+		case 1: // a mismatching call (fails unless the slot is new)
+			c.MatchSnapshot(ts[w], "w")
+			ord[w]++
+		case 2: // invalid JSON: fails before anything is compared
+			c.MatchJSON(ts[w], "{")
+			ord[w]++
+		case 3: // a matcher error
+			c.MatchJSON(ts[w], `{"a":1}`, &envMatcher{errs: []match.MatcherError{{Reason: errEnv, Matcher: "Any", Path: "p"}}})
+			ord[w]++
+		default: // this test's execution ends; a new one begins
+			ts[w].end()
+			ts[w] = newT(names[w])
+			ord[w] = 0
 		}
-		if nameX == nameY {
-			t = tx
-			who = 0
-		}
-		if who == 0 {
-			kx++
-		} else {
-			ky++
-		}
-		want := kx
-		if who == 1 {
-			want = ky
-		}
-		// value: either what is stored for that slot, or something else (a failing call)
-		val := "v"
-		if vxrt.Bool("mismatch") {
-			val = "w"
-		}
-		before := len(t.errors) + len(t.logs)
-		c.MatchSnapshot(t, val)
-		_ = before
-		// the slot addressed is observable through the file: after the call the entry exists
-		id := "[" + t.name + " - " + strconv.Itoa(want) + "]"
-		got, _, err := getPrevSnapshot(id, path)
-		_ = got
-		vxrt.Assert(err == nil || len(t.errors) > 0, "C03:kth-call-addresses-slot-k")
-		vxrt.Assert(testsRegistry.running[path][t.name] == want, "C03:ordinal-is-call-index")
+		vxrt.Assert(testsRegistry.running[path][names[w]] == ord[w], "C03:ordinal-is-call-index")
+		vxrt.Assert(testsRegistry.running[path][names[o]] == ord[o], "C03:other-test-ordinal-untouched")
 	}
-	tx.end()
-	ty.end()
-	vxrt.Assert(testsRegistry.running[path][nameX] == 0 && testsRegistry.running[path][nameY] == 0, "C03:ordinal-reset-at-end")
-	// a re-execution starts at 1
-	t3 := newT(nameX)
+	ts[0].end()
+	ts[1].end()
+	vxrt.Assert(testsRegistry.running[path][names[0]] == 0 && testsRegistry.running[path][names[1]] == 0, "C03:ordinal-reset-at-end")
+	t3 := newT(names[0])
 	c.MatchSnapshot(t3, "v")
-	vxrt.Assert(testsRegistry.running[path][nameX] == 1, "C03:re-execution-starts-at-1")
-	if nameX != nameY {
-		vxrt.Assert(testsRegistry.running[path][nameY] == 0, "C03:other-test-untouched")
-	}
+	vxrt.Assert(testsRegistry.running[path][names[0]] == 1, "C03:re-execution-starts-at-1")
 	t3.end()
 }
 
